@@ -26,6 +26,12 @@ fn graphs(rng: &mut Rng, tier: &str) -> Vec<(Mol, Vec<(usize, usize, f64)>)> {
         ("trimethyloxonium", vec![8, 6, 6, 6, 1, 1, 1, 1, 1, 1, 1, 1, 1], vec![(0, 1, 1.0), (0, 2, 1.0), (0, 3, 1.0), (1, 4, 1.0), (1, 5, 1.0), (1, 6, 1.0), (2, 7, 1.0), (2, 8, 1.0), (2, 9, 1.0), (3, 10, 1.0), (3, 11, 1.0), (3, 12, 1.0)]),
         ("diborane", vec![5, 5, 1, 1, 1, 1, 1, 1], vec![(0, 2, 1.0), (0, 3, 1.0), (1, 4, 1.0), (1, 5, 1.0), (0, 6, 1.0), (1, 6, 1.0), (0, 7, 1.0), (1, 7, 1.0)]),
         ("iodine-heptafluoride", vec![53, 9, 9, 9, 9, 9, 9, 9], vec![(0, 1, 1.0), (0, 2, 1.0), (0, 3, 1.0), (0, 4, 1.0), (0, 5, 1.0), (0, 6, 1.0), (0, 7, 1.0)]),
+        // several fragments in one table (a dimer, a salt with the lone ion listed first or last, a solvate)
+        ("water-dimer", vec![8, 1, 1, 8, 1, 1], vec![(0, 1, 1.0), (0, 2, 1.0), (3, 4, 1.0), (3, 5, 1.0)]),
+        ("ammonium-chloride-ion-first", vec![17, 7, 1, 1, 1, 1], vec![(1, 2, 1.0), (1, 3, 1.0), (1, 4, 1.0), (1, 5, 1.0)]),
+        ("ammonium-chloride-ion-last", vec![7, 1, 1, 1, 1, 17], vec![(0, 1, 1.0), (0, 2, 1.0), (0, 3, 1.0), (0, 4, 1.0)]),
+        ("sodium-acetate-ion-first", vec![11, 6, 6, 8, 8, 1, 1, 1], vec![(1, 2, 1.0), (2, 3, 2.0), (2, 4, 1.0), (1, 5, 1.0), (1, 6, 1.0), (1, 7, 1.0)]),
+        ("methanol-water-h2", vec![6, 8, 1, 1, 1, 1, 8, 1, 1, 1, 1], vec![(0, 1, 1.0), (0, 2, 1.0), (0, 3, 1.0), (0, 4, 1.0), (1, 5, 1.0), (6, 7, 1.0), (6, 8, 1.0), (9, 10, 1.0)]),
         ("fluoronium-bridge", vec![9, 6, 6, 1, 1, 1, 1, 1, 1], vec![(0, 1, 1.0), (0, 2, 1.0), (1, 3, 1.0), (1, 4, 1.0), (1, 5, 1.0), (2, 6, 1.0), (2, 7, 1.0), (2, 8, 1.0)]),
     ];
     for (name, zs, bonds) in explicit {
